@@ -1,4 +1,4 @@
--- GENERATED from /tmp/wt_s2x by checks/ on every run. Do not edit.
+-- GENERATED from /repo by checks/ on every run. Do not edit.
 import TbbVerif.Core.Cint
 import TbbVerif.Model.C02
 namespace TbbVerif.Generated.C02
